@@ -477,6 +477,17 @@ class Gen:
         if via is None:
             return None
         st = {"k": "kraus", "ops": [c2j(K) for K in Ks], "targets": tg, "kraus_kind": kind}
+        # the caller keeps his list of operators and applies the same list again later (same total dimension)
+        seen = getattr(self, "kraus_seen", None)
+        if seen is None:
+            seen = self.kraus_seen = []
+        fits = [(j, o) for j, o in enumerate(seen) if o["ops"][0]["shape"][0] == d]
+        if fits and self.rng.random() < 0.35:
+            j, o = fits[int(self.rng.integers(0, len(fits)))]
+            st["ops"], st["kraus_kind"], st["kraus_id"] = o["ops"], o["kraus_kind"], j
+        else:
+            seen.append({"ops": st["ops"], "kraus_kind": kind})
+            st["kraus_id"] = len(seen) - 1
         st.update(via)
         return st
 
